@@ -19,4 +19,6 @@ def consts : Consts where
 def orthoPairs : List (Nat × Nat) := [(0, 1), (0, 2), (1, 2)]
 /-- `repeat_box` hands its `amount` argument on to `repeat_box_coord` -/
 def repeatBoxPassesAmount : Bool := true
+/-- the round-off clean-up of `vectors_from_unitcell` compares with a tolerance built from the SUM of the lengths -/
+def unitcellTolUsesSum : Bool := false
 end BiotiteModel.Gen.C15
